@@ -634,6 +634,17 @@ class Status:
         if 'error-description' in self.data:
             del self.data['error-description']
 
+    def resetForRestart(self):
+        """Forgets the verdict of the previous run of this instance.
+
+        A restarted experiment loads the status file its previous run left behind (e.g. experiment-state=finished,
+        exit-status=Failed, a completion time stamp and an error description). Until the restarted run reaches its own
+        verdict the status must not report the old one next to experiment-state=running.
+        """
+        self.removeErrorDescription()
+        for key in ('exit-status', 'completed-on', 'experiment-state'):
+            self.data[key] = Status.defaults[key]
+
     def setErrorDescription(self, desc: str):
         self.data['error-description'] = desc
 
